@@ -31,7 +31,7 @@ def groups(sc, tier):
                     remove_bodies=["Bragg_angle"], harness_defines=["-DSTUB_BRAGG"], functions=["Q_scattering_amplitude"], **base))
     for lem, fn in (("lemma_dSpacing", "Crystal_dSpacing"), ("lemma_UnitCellVolume", "Crystal_UnitCellVolume")):
         gs.append(Group("C13.K2." + fn, "K2", lem, extra=["harness/h_diffraction.c", "harness/libm_uf.c", stub0, common.STATE],
-                        harness_defines=["-DLEMMA_GEOMETRY"], functions=[fn], **base))
+                        harness_defines=["-DLEMMA_GEOMETRY", "-DLIBM_CONCRETE_IN_PREPASS"], functions=[fn], restrict_retry="V_RESTRICT_LEAVES", **base))
     stub1, u1 = common.stubs(sc, ["FF_Rayl", "Fi", "Fii"], "diffr1")
     gs.append(Group("C13.K2.Atomic_Factors", "K2", "lemma_Atomic_Factors", extra=["harness/h_diffraction.c", "harness/libm_uf.c", stub1, common.STATE],
                     harness_defines=["-DLEMMA_ATOMIC_FACTORS"], functions=["Atomic_Factors"], stubs_used=u1, **base))
